@@ -1,3 +1,5 @@
+import json
+
 from typing import Any, List, Optional
 
 from tartiflette.language.ast.base import Node, ValueNode
@@ -323,7 +325,7 @@ class StringValueNode(ValueNode):
         :return: a human-readable representation of the value
         :rtype: str
         """
-        return f'"{self.value}"'
+        return json.dumps(self.value, ensure_ascii=False)
 
 
 class ListValueNode(ValueNode):
